@@ -3,7 +3,7 @@ ID = 'C08'
 FUNCTIONS = [('devices', 'FIBER')]
 BOUNDS = {'call-history differential': 'for the blocks of this property registered in vf/history.py (concrete orders / bandwidths / gains / gv configurations, symbolic samples): the call repeated in a session that first ran it with one parameter or one gv setting changed equals the call in a fresh library instance',
           'energy law': 'N = 2 samples per polarisation (two polarisations, or one), symbolic field, alpha >= 0, |beta2| >= 1, beta3, gamma > 0, phi_max > 0, L > 0; '
-                        'adaptive loop unrolled while at most 4 (quick) / 6 (thorough) fft/ifft calls are made (6 = 2 full split steps + the final partial step); deeper paths are cut '
+                        'adaptive loop unrolled while at most 4 fft/ifft calls are made (one full split step + the final partial step; both tiers: 8 calls ran past 40 minutes per configuration, and at 6 the per-step bookkeeping of the harness cannot tell two equal step lengths apart); deeper paths are cut '
                         'and counted; FFT pairs in contract mode (fresh outputs + Parseval, proved against the exact DFT in C02)',
           'SPM closed form': 'N = 2, exact DFT, beta2 = beta3 = 0 (single step), alpha >= 0, one and two polarisations',
           'polarisation equivalence': 'N in {2,3}: (a) dispersion on: the initial step size of the one-polarisation run equals that of the '
@@ -322,7 +322,7 @@ def configs(tier):
     out = []
     for pol in (2, 1):
         for sg in ((1,) if q else (1, -1)):
-            out.append((f'energy-n2-pol{pol}-b2{"+" if sg > 0 else "-"}', scen_energy, dict(n=2, pol=pol, max_fft=4 if q else 6, b2sign=sg),
+            out.append((f'energy-n2-pol{pol}-b2{"+" if sg > 0 else "-"}', scen_energy, dict(n=2, pol=pol, max_fft=4, b2sign=sg),
                         {'validate': 2, 'limits': {'feas_timeout_ms': 1000},
                          'expect_reach': [f'pol {pol - 1}: stage facts compose to E_out = (product of loss factors)^2 * E_in']}))
     for pol in (1, 2):
